@@ -6,6 +6,7 @@ import (
 	"fmt"
 	"runtime"
 	"sort"
+	"strings"
 	"sync"
 	"sync/atomic"
 	"testing"
@@ -284,12 +285,17 @@ func TestVerif_C20(t *testing.T) {
 		go func() { wg.Wait(); close(done) }()
 		select {
 		case <-done:
-		case <-time.After(120 * time.Second):
+		case <-time.After(60 * time.Second):
 			buf := make([]byte, 1<<20)
 			n := runtime.Stack(buf, true)
-			c.Inconclusive("drivers did not finish within 120 s (possible deadlock); goroutine dump in the detail of this note")
-			c.Logf("%s", buf[:n])
+			dump := string(buf[:n])
+			if site := c20DeadlockSite(dump); site != "" {
+				c.Violation("deadlock:"+site, "the drivers made no progress for 60 s and are parked inside MetalLB (handler waiting while holding a lock another party needs)", map[string]any{"goroutines": dump[:min(len(dump), 12000)]})
+			} else {
+				c.Inconclusive("drivers did not finish within 60 s and the goroutine dump does not show them parked inside MetalLB")
+			}
 			close(stop)
+			c.Abort()
 			return
 		}
 		close(stop)
@@ -331,4 +337,36 @@ func TestVerif_C20(t *testing.T) {
 			c.Sample(map[string]any{"effective_order_prefix": sig[:k], "drivers": ndrivers, "handler_calls": len(elog), "fetches": fetches, "overlapped": overlapped})
 		}
 	})
+}
+
+// c20DeadlockSite: in a goroutine dump, the innermost MetalLB frame of a goroutine that is parked on a
+// channel send or a lock while a k8s.Listener handler is on its stack (the handler holds the Listener
+// lock, so every other driver is queued behind it); for a goroutine parked in the Listener's own Lock
+// the handler itself is the site.
+func c20DeadlockSite(dump string) string {
+	site := ""
+	for _, g := range strings.Split(dump, "\n\n") {
+		if !strings.Contains(g, "internal/k8s.(*Listener).") && !strings.Contains(g, "internal/k8s.Listener.") {
+			continue
+		}
+		if !(strings.Contains(g, "[chan send") || strings.Contains(g, "[sync.Mutex.Lock") || strings.Contains(g, "[sync.RWMutex") || strings.Contains(g, "[semacquire")) {
+			continue
+		}
+		for _, l := range strings.Split(g, "\n") {
+			if strings.HasPrefix(l, "go.universe.tf/metallb/") && !strings.Contains(l, "TestVerif") && !strings.Contains(l, ".vf") {
+				if k := strings.LastIndex(l, "("); k > 0 {
+					l = l[:k]
+				}
+				l = strings.TrimPrefix(l, "go.universe.tf/metallb/")
+				if !strings.Contains(l, "internal/k8s.") {
+					return l
+				}
+				if site == "" {
+					site = l
+				}
+				break
+			}
+		}
+	}
+	return site
 }
